@@ -34,7 +34,7 @@ See `parse_template()` for details.
 
 import re
 from functools import lru_cache
-from typing import List, Optional, Tuple
+from typing import List, Optional, Tuple, Union
 
 from django.template.base import DebugLexer, Token, TokenType
 from django.template.exceptions import TemplateSyntaxError
@@ -67,6 +67,9 @@ def parse_template(text: str) -> List[Token]:
     index_start = 0
     index_end = len(text)
     lineno_offset = 0
+    # Django's Lexer remembers that it is inside a `{% verbatim %}` block. Because we restart the Lexer
+    # after each broken token, we have to carry that state over, e.g. for `{% verbatim "myblock" %}`.
+    verbatim_state: Union[str, bool] = False
 
     while index_start < index_end:
         broken_token: Optional[Token] = None
@@ -74,6 +77,7 @@ def parse_template(text: str) -> List[Token]:
         # We use DebugLexer because we need to get the position of the tokens.
         # DebugLexer and Lexer have very similar speeds, Debug is about 33% slower.
         lexer = DebugLexer(text[index_start:index_end])
+        lexer.verbatim = verbatim_state
         tokens: List[Token] = lexer.tokenize()
 
         for token in tokens:
@@ -92,6 +96,11 @@ def parse_template(text: str) -> List[Token]:
             fixed_token = _detailed_tag_parser(text[broken_token_start:], broken_token.lineno, broken_token_start)
 
             resolved_tokens.append(fixed_token)
+            # Same rule as in Django's `Lexer.create_token()`
+            if fixed_token.contents[:9] in ("verbatim", "verbatim "):
+                verbatim_state = "end%s" % fixed_token.contents
+            else:
+                verbatim_state = False
             index_start = fixed_token.position[1]
             # NOTE: `fixed_token.lineno` already includes the previous offset, and the newlines must be counted
             # in the whole tag as written in the source, not in its stripped contents.
